@@ -177,9 +177,59 @@ def _class_inventory(rel, tree, par):
     return out
 
 
+HANDLERS = ("handle_starttag", "handle_endtag", "handle_startendtag", "handle_data", "handle_comment", "handle_decl",
+            "handle_pi", "unknown_decl", "handle_entityref", "handle_charref")
+_MUTATORS = ("append", "extend", "insert", "pop", "remove", "clear", "update", "setdefault", "add", "discard", "sort", "reverse",
+             "popitem", "__setitem__", "__delitem__", "__setattr__")
+
+
+def _handler_calls(rel, tree, par):
+    """every call `<anything>.<handler>(...)` in the file: (file, enclosing function, handler).  The model's event
+    sequence is what HTMLParser.feed delivers; any other caller of a handler is a second driver of the machine."""
+    out = []
+    for n in ast.walk(tree):
+        if isinstance(n, ast.Call) and isinstance(n.func, ast.Attribute) and n.func.attr in HANDLERS:
+            out.append((rel, _qual(n, par), n.func.attr))
+        elif isinstance(n, ast.Attribute) and n.attr in HANDLERS and isinstance(n.ctx, ast.Load) and \
+                not (isinstance(par.get(n), ast.Call) and par[n].func is n):
+            out.append((rel, _qual(n, par), "ref:" + n.attr))  # a handler taken as a value (callback / alias)
+        elif isinstance(n, ast.Constant) and isinstance(n.value, str) and n.value in HANDLERS and not isinstance(par.get(n), ast.Expr):
+            out.append((rel, _qual(n, par), "str:" + n.value))  # getattr(p, "handle_data") …
+    return out
+
+
+def _state_writers(tree):
+    """methods of the two classes that can change the object's state: assign / delete / augment an attribute or an item
+    reached from `self`, or call a mutating method on something reached from `self`"""
+    def from_self(e):
+        while isinstance(e, (ast.Attribute, ast.Subscript)):
+            e = e.value
+        return isinstance(e, ast.Name) and e.id == "self"
+    out = []
+    for c in ast.walk(tree):
+        if isinstance(c, ast.ClassDef) and c.name in CLASSES:
+            for st in c.body:
+                if not isinstance(st, (ast.FunctionDef, ast.AsyncFunctionDef)):
+                    continue
+                w = False
+                for n in ast.walk(st):
+                    if isinstance(n, (ast.Attribute, ast.Subscript)) and isinstance(n.ctx, (ast.Store, ast.Del)) and from_self(n):
+                        w = True
+                    if isinstance(n, ast.Call) and isinstance(n.func, ast.Attribute) and n.func.attr in _MUTATORS and from_self(n.func.value):
+                        w = True
+                    if isinstance(n, ast.Call) and isinstance(n.func, ast.Name) and n.func.id in ("setattr", "delattr", "vars"):
+                        w = True
+                    if isinstance(n, ast.Attribute) and n.attr == "__dict__":
+                        w = True
+                if w:
+                    out.append(f"{c.name}.{st.name}")
+    return out
+
+
 @generator("HtmlLife")
 def gen_htmllife() -> str:
     sites, notes, classes = [], [], {}
+    hcalls, writers = [], []
     for rel in _files():
         with open(os.path.join(REPO, rel), encoding="utf-8") as fh:
             text = fh.read()
@@ -187,6 +237,8 @@ def gen_htmllife() -> str:
             continue
         tree = ast.parse(text, filename=rel)
         par = _parents(tree)
+        hcalls += _handler_calls(rel, tree, par)
+        writers += _state_writers(tree)
         for name, inv in _class_inventory(rel, tree, par).items():
             if name in classes:
                 notes.append(f"{rel}: class {name} is defined more than once ({classes[name]['where']})")
@@ -231,6 +283,12 @@ def gen_htmllife() -> str:
         L.append(f"def {short}Bases : List String := " + lean_list(lean_str(x) for x in inv["bases"]))
         L.append(f"/-- calls of the base-class constructor inside `__init__` -/")
         L.append(f"def {short}InitResets : List String := " + lean_list(lean_str(x) for x in inv["inits"]) + "\n")
+    L.append("/-- every call of (or reference to) an HTMLParser handler method in the files that mention a parser class: "
+             "(file, enclosing function, handler) -/")
+    L.append("def handlerCalls : List (String × String × String) := " + lean_list(
+        "(%s, %s, %s)" % tuple(lean_str(x) for x in h) for h in sorted(hcalls)) + "\n")
+    L.append("/-- the methods of the two classes that can change the object's state (assign / mutate something reached from `self`) -/")
+    L.append("def stateWriters : List String := " + lean_list(lean_str(x) for x in sorted(writers)) + "\n")
     L.append("/-- translator cross-check notes; must be empty -/")
     L.append("def notes : List String := " + lean_list(lean_str(n) for n in notes) + "\n")
     L.append("end S2T.Gen.HtmlLife\n")
